@@ -26,6 +26,7 @@ import rustitems as R
 from locate import Source
 
 W_OPEN, W_CLOSE = "/*[W*/", "/*W]*/"
+S_OPEN, S_CLOSE = "/*[S*/", "/*S]*/"   # synthesised function header of a derived item (stripped by the erase check)
 I_OPEN, I_CLOSE = "/*[ITEM %s*/", "/*ITEM]*/"
 
 KEEP_DERIVES = {"Clone", "Copy", "PartialEq", "Eq", "Debug", "Default"}
@@ -328,6 +329,56 @@ def extract_items(unit, side: Sidecar):
             manifest.append({"file": srcspec["file"], "item": spec, "line": src.line(it.head_start)})
             for d in drops + removed_ranges:
                 drops_all.append(f"{srcspec['file']}:{src.line(d[0])}: {d[3]}")
+    for d in unit.get("derived", []):
+        if d["kind"] != "if-condition":
+            raise Undecided(f"unknown derived kind {d['kind']}")
+        path = REPO / d["file"]
+        src = Source(str(path))
+        fn_item = src.fn(d["function"])
+        bo, bc = fn_item.body
+        ts = [t for t in src.toks if bo < t.pos < bc and t.kind not in R.TRIVIA]
+        found = []
+        for i, t in enumerate(ts):
+            if t.kind == R.ID and t.text == "if" and not (i + 1 < len(ts) and ts[i + 1].text == "let"):
+                # condition = tokens up to the block's `{` at depth 0
+                k, depth = i + 1, 0
+                while k < len(ts):
+                    u = ts[k]
+                    if u.kind == R.P and u.text in ("(", "["): depth += 1
+                    elif u.kind == R.P and u.text in (")", "]"): depth -= 1
+                    elif u.kind == R.P and u.text == "{" and depth == 0: break
+                    k += 1
+                cond = ts[i + 1:k]
+                if any(c.kind == R.ID and c.text == d["calls"] for c in cond):
+                    found.append((ts[i + 1].pos, ts[k - 1].end, cond))
+        if len(found) != 1:
+            raise Undecided(f"lost anchor: {len(found)} `if` conditions calling `{d['calls']}` in {d['function']}")
+        cs, ce, cond = found[0]
+        cond_text = src.src[cs:ce]
+        # parameters: free identifiers in order of first occurrence (callee names and keywords excluded)
+        params = []
+        for j, c in enumerate(cond):
+            if c.kind == R.ID and c.text not in params and c.text != d["calls"] and \
+                    not (j + 1 < len(cond) and cond[j + 1].text in ("(", "::", "!")) and \
+                    not (j > 0 and cond[j - 1].text == ".") and c.text not in ("true", "false", "as", "usize"):
+                params.append(c.text)
+        key = d["name"]
+        fnlocs[key] = f"{d['file']}:{src.line(cs)}"
+        clause = ""
+        if key in side.fn:
+            used.add(("fn", key))
+            clause = W("\n" + Sidecar.txt(side.fn[key][1]) + "\n")
+        entry = ""
+        if (key, "entry", 0) in side.proof:
+            used.add(("proof", key, "entry", 0))
+            entry = "\n" + Sidecar.txt(side.proof[(key, "entry", 0)]) + "\n"
+        def S(x): return f"{S_OPEN}{x}{S_CLOSE}"
+        hdr = S(f"fn {key}(" + ", ".join(f"{p}: usize" for p in params) + ") -> (r: bool)") + clause + S("{") + (W(entry) if entry else "")
+        gen = hdr + "\n" + cond_text + "\n" + S("}")
+        erase_check(gen, cond_text, f"{d['file']}: condition of the `if` calling {d['calls']} in {d['function']}")
+        modules.setdefault(d["module"], []).append((I_OPEN % f"{d['file']}: if-condition in {d['function']} calling {d['calls']}") + "\n" + gen + "\n" + I_CLOSE)
+        manifest.append({"file": d["file"], "item": f"if-condition of {d['function']} calling {d['calls']} (parameters: {params})",
+                         "line": src.line(cs)})
     # every sidecar section must have been used
     for k in side.fn:
         if ("fn", k) not in used:
@@ -342,18 +393,20 @@ def extract_items(unit, side: Sidecar):
 
 
 def strip_woven(text):
-    out = []
-    i = 0
-    while True:
-        j = text.find(W_OPEN, i)
-        if j < 0:
-            out.append(text[i:]); break
-        out.append(text[i:j])
-        k = text.find(W_CLOSE, j)
-        if k < 0:
-            raise Undecided("erase check: unbalanced weave markers")
-        i = k + len(W_CLOSE)
-    return "".join(out)
+    for op, cl in ((W_OPEN, W_CLOSE), (S_OPEN, S_CLOSE)):
+        out = []
+        i = 0
+        while True:
+            j = text.find(op, i)
+            if j < 0:
+                out.append(text[i:]); break
+            out.append(text[i:j])
+            k = text.find(cl, j)
+            if k < 0:
+                raise Undecided("erase check: unbalanced weave markers")
+            i = k + len(cl)
+        text = "".join(out)
+    return text
 
 
 def erase_check(gen, ref, what):
@@ -610,10 +663,10 @@ def vacuity_pass(unit, text, side, fnlocs, rlimit):
         marker = W("\n" + clause + "\n")
         if marker not in text:
             return k, "nomarker"
-        if re.search(r"\bensures\b", clause):
-            new = re.sub(r"\bensures\b", "ensures false,", clause, count=1)
-        elif re.search(r"\bdecreases\b", clause):
-            new = re.sub(r"\bdecreases\b", "ensures false,\ndecreases", clause, count=1)
+        if re.search(r"(?m)^\s*ensures\b", clause):
+            new = re.sub(r"(?m)^(\s*)ensures\b", r"\1ensures false,", clause, count=1)
+        elif re.search(r"(?m)^\s*decreases\b", clause):
+            new = re.sub(r"(?m)^(\s*)decreases\b", r"\1ensures false,\ndecreases", clause, count=1)
         else:
             new = clause + "\nensures false,"
         gen = text.replace(marker, W("\n" + new + "\n"), 1)
